@@ -77,6 +77,50 @@ theorem cleaning_classes_model :
   · rw [isSpace_eq]; exact inRanges_eq_of_sub (by decide) (by decide) _
   · rw [staysEscaped_eq]; exact inRanges_eq_of_sub (by decide) (by decide) _
 
+/-! ### the other decisions two steps take from two different tables -/
+
+/-- **table obligation**: what the re-parse of the printed canonical form cuts at stays escaped in
+the component it would cut: `?` `#` (urlsplit), `/` (segments, `normpath`) and `%` in the path;
+the separators of `safe_qsl_iter` (regenerated by probing the function: `&` between items, `=`
+between key and value), `#` and `%` in a query key or value; `%` in the fragment; the delimiters
+of the authority in user and password.  (The model's `safeQslIter` cuts at `&` and the first `=`.) -/
+theorem reparse_separators_stay_escaped :
+    (∀ b ∈ ([0x23, 0x3F, 0x2F, 0x25] : List UInt8), b ∈ Gen.Quote.unsafeForPath) ∧
+    (∀ n ∈ Gen.C03.queryItemSeparators ++ Gen.C03.queryKeyValueSeparators ++ [0x23, 0x25],
+      UInt8.ofNat n ∈ Gen.Quote.unsafeForQueryItem) ∧
+    (0x25 : UInt8) ∈ Gen.Quote.unsafeForFragment ∧
+    (∀ b ∈ ([0x40, 0x3A, 0x2F, 0x3F, 0x23, 0x5B, 0x5D, 0x25] : List UInt8),
+      b ∈ Gen.Quote.unsafeForAuthItem) ∧
+    Gen.C03.queryItemSeparators = [0x26] ∧ Gen.C03.queryKeyValueSeparators = [0x3D] := by
+  decide
+
+/-- **table obligation**: whatever CPython's `urlsplit` removes from the string it is handed
+(tab, CR, LF anywhere; C0 controls and the space in front; probed on the running interpreter) the
+cleaning pass has removed before — so the parser never changes a cleaned string behind ural's
+back, and (with the two obligations above) the printed canonical form holds nothing it would remove -/
+theorem parser_removals_are_cleaned :
+    ∀ c : Nat, inRanges (Gen.C03.urlsplitRemovedRanges ++ Gen.C03.urlsplitStrippedStartRanges ++
+        Gen.C03.urlsplitStrippedEndRanges) c = true →
+      inControlClass c = true ∨ inStripClass c = true := by
+  intro c hc
+  have := subRanges_sound (ys := Gen.C03.controlRanges ++ Gen.C03.stripRanges) (by decide) c hc
+  rw [inRanges_append, Bool.or_eq_true] at this
+  exact this
+
+def isLowerHex (c : Char) : Bool := 'a' ≤ c ∧ c ≤ 'f'
+
+/-- **table obligation**: the three recognisers of an escape agree — on every `%ab` over a probe
+alphabet (hex digits of both cases, letters and signs next to them) the decoder (`HEX_TO_BYTE`)
+decodes it iff `safely_quote` (`QUOTED_RE`) keeps it as an escape iff `a`, `b` are hex digits (the
+model's `tokens`); `upper_quoted` (`LOWERCASE_QUOTED_RE`) changes it iff it is an escape with a
+lower-case digit, and then only its case -/
+theorem escape_recognisers_agree :
+    Gen.C03.escapeProbes.all (fun p =>
+      let hex := isHexDigit p.1 && isHexDigit p.2.1
+      p.2.2.1 == hex && p.2.2.2.1 == hex && p.2.2.2.2.2 &&
+        p.2.2.2.2.1 == (hex && (isLowerHex p.1 || isLowerHex p.2.1))) = true := by
+  decide +kernel
+
 /-- non-vacuity of the obligations: the classes are not empty, and some code points do NOT stay
 escaped (the soft hyphen, the zero-width space and the BOM are decoded: they must not be cleaned) -/
 example :
@@ -193,6 +237,67 @@ theorem clean_canonical_partial (puny : Str → Str) (hpc : PunyClean puny)
   · intro c hc
     exact hns c (List.mem_of_getLast? hc)
 
+/-- **the whole cleaning pass of `normalize_url` is the identity on the canonical form**
+(`CONTROL_CHARS_RE.sub`, `strip`, `upper_quoted`: `Normalize.preClean`), unquoted mode — so
+`normalize_url(canonicalize_url(u))` parses exactly the string `canonicalize_url` printed, and the
+component theorems of `Props/C03.lean` (`normalize_canonicalize_partial`, hypothesis `Reparses`)
+apply to it.  PARTIAL: the region of `Props/C02Whole.lean` `canonicalize_idempotent_partial`
+(default protocol of 1–64 letters, bracket conditions, no `%` in the host, an authority is
+printed) with its hypothesis on the last character replaced by: no white space in the parsed
+hostname. -/
+theorem normalize_cleaning_canonical_partial (puny : Str → Str) (hpc : PunyClean puny)
+    (dp : Str) (sf : Bool)
+    (hdp : rstripChars dp [':', '/'] ≠ [] ∧ (∀ c ∈ rstripChars dp [':', '/'], isAsciiAlpha c = true) ∧
+      (rstripChars dp [':', '/']).length ≤ 64)
+    (u : Str) (p : Parsed) (hp : parseUrl (Canonicalize.cleanUrl u dp) = some p)
+    (hnb : NoOddBracket p)
+    (hbr : ':' ∈ strOf (canonComps puny false sf p).host →
+      bracketedHostOk (strOf (canonComps puny false sf p).host) = true)
+    (hpct : ∀ h0, p.hostname = some h0 → '%' ∉ h0)
+    (hnl : (canonParts puny false sf p).netloc ≠ [] ∨
+      inTable usesNetloc20 (canonParts puny false sf p).scheme = true)
+    (hhost : ∀ h0, p.hostname = some h0 → ∀ c ∈ h0, isSpace c = false) :
+    Normalize.preClean (urlunsplit (canonParts puny false sf p)) =
+      urlunsplit (canonParts puny false sf p) := by
+  have hsch : SchemeShaped (rstripChars dp [':', '/']) := by
+    obtain ⟨hne, hall, _⟩ := hdp
+    constructor
+    · cases hr : rstripChars dp [':', '/'] with
+      | nil => exact absurd hr hne
+      | cons c r => exact ⟨c, r, rfl, hall c (by rw [hr]; simp)⟩
+    · apply List.all_eq_true.2
+      intro c hc
+      simp [isSchemeChar, hall c hc]
+  obtain ⟨S, rest, hcl, hletters⟩ := cleanUrl_cleaned u dp hsch
+  have hS := hletters hdp.2.1 hdp.2.2
+  have hf := fromParse hcl hp
+  have hup := upFacts hcl (upperEsc_cleanUrl u dp hdp.2.1) hp
+  have hok := netlocOk_new hpc false sf hf hnb hbr
+  have hwf := CanonRoundTrip.canonParts_wf hpc false sf hf hok
+  have heq := printed_eq hpc sf hf hwf hnl
+  have hlow : ∀ c ∈ lower S, isAsciiAlpha c = true := by
+    intro c hc
+    simp only [Py.lower, List.mem_map] at hc
+    obtain ⟨d, hd, rfl⟩ := hc
+    exact isAsciiAlpha_lowerChar (hS.1 d hd)
+  have hup' : UpperEsc (urlunsplit (canonParts puny false sf p)) := by
+    rw [heq]
+    have ss : Sep '/' := ⟨by decide, by decide⟩
+    exact (upperEsc_append_sep ⟨by decide, by decide⟩ _ _).2
+      ⟨upperEsc_of_no_pct (alpha_no_pct hlow),
+        (upperEsc_cons_sep ss _).2 ((upperEsc_cons_sep ss _).2
+          (upperEsc_printed_body hpc sf hf hup pathIdem hpct))⟩
+  have hclean := clean_canonical_partial puny hpc ⟨dp, false, sf⟩ hsch u
+    (urlunsplit (canonParts puny false sf p))
+    (by simp [canonicalizeUrl, canonicalizeSplit, hp])
+    (fun p' h0 hp' hh => by
+      have e : p' = p := by
+        have : some p = some p' := by rw [← hp]; exact hp'
+        exact (Option.some.inj this).symm
+      subst e; exact hhost h0 hh)
+  unfold Normalize.preClean
+  rw [hclean, upperQuoted_of_upperEsc hup']
+
 /-- the excluded region really fails, on the model as on the implementation (KF-C02-2): a
 hostname ending with a raw no-break space and nothing printed after it -/
 theorem not_fullCleanCanonical : ¬ FullCleanCanonical := by
@@ -216,7 +321,8 @@ example :
     canonicalizeUrl id ⟨"https".toList, false, false⟩
         (" \x00HTTP://A.com/x%00y%C2%85/z".toList ++ [Char.ofNat 0x3000] ++
           "?k%0A=v%C2%A0&%E2%80%8B=%EF%BB%BF#f%7F%E2%80%A8 ".toList) = some demoCanonical ∧
-    strip (stripControl demoCanonical) = demoCanonical := by
+    strip (stripControl demoCanonical) = demoCanonical ∧
+    Normalize.preClean demoCanonical = demoCanonical := by
   decide +kernel
 
 end Ural.Props.C03
